@@ -106,3 +106,20 @@ def patch_gallia(db: bool = False) -> int:
                 d[attr] = new
                 n += 1
     return n
+
+
+def bind_clock(mod: types.ModuleType, clock: Any) -> int:
+    """Rebind whatever name `mod` uses for the wall clock (`time` the function or `time` the module) to `clock`."""
+    n = 0
+    for attr, val in list(mod.__dict__.items()):
+        if val is _ORIG_TIME or val is vtime or getattr(val, "_vf_clock", False):
+            mod.__dict__[attr] = clock
+            n += 1
+        elif val is _time or (isinstance(val, _Proxy) and val.__dict__.get("_real") is _time):
+            mod.__dict__[attr] = _Proxy(_time, {"time": clock})
+            n += 1
+    try:
+        clock._vf_clock = True
+    except Exception:  # noqa: BLE001
+        pass
+    return n
